@@ -7,6 +7,8 @@ import vrun
 from common import canon_errors
 
 LEVEL = "proof"
+import vrun as _vrun_refs
+_vrun_refs.P_REFS = 0.15      # some generated schemas carry registry references (validator-bound registries)
 COQ_FILES = ['theories/Model/Validate.v', 'theories/Model/FactsOk.v', 'theories/Proofs/QueueProofs.v', 'theories/Properties/C01.v']
 FACT_GROUPS = ["F1", "F2", "F3", "F5", "F6", "F8"]
 ALLOWED_AXIOMS = []
